@@ -302,3 +302,27 @@ def expand(fi, expr, depth=6):
             return node
 
     return T(depth).visit(copy.deepcopy(expr))
+
+
+def helper_closure(idx, fi):
+    """`fi`, its nested functions and every package helper (non-protocol function or method) it reaches through
+    resolved calls - the unit a rule about `fi` has to read when helpers were extracted to module level or other modules"""
+    from engine.normalize import _is_protocol
+
+    out = [fi]
+    work = [fi]
+    while work:
+        f = work.pop()
+        cands = list(f.nested.values())
+        for c in idx.own_calls(f):
+            t, how = idx.call_targets(f, c)
+            if how in ("resolved", "self", "class") and len(t) == 1:
+                cands.extend(t)
+        for g in cands:
+            if g in out:
+                continue
+            if g.parent is None and _is_protocol(g.name):
+                continue
+            out.append(g)
+            work.append(g)
+    return out
